@@ -21,7 +21,7 @@ SHARD_TIMEOUT = {"quick": 600, "thorough": 1800}
 def gen_cases(tier, seed):
     rng = gen.rng_for(seed, "c13", tier)
     cases = []
-    n = 300 if tier == "quick" else 8000
+    n = 1000 if tier == "quick" else 8000
     for k in range(n):
         rank = [2, 3, 4][k % 3]
         cases.append({"kind": "bn", "rank": rank, "C": int(rng.integers(1, 4)), "momentum": [0.1, 0.5, 1.0, None][int(rng.integers(4))],
